@@ -1039,6 +1039,8 @@ def fam_stripe_resize(seed):
     kind = str(r.choice(["resize_bilinear", "resize_bilinear", "resize_nearest"]))
     ac = bool(r.integers(0, 4) == 0)
     hp = (not ac) and r.integers(0, 3) == 0  # half-pixel centres: the bilinear resize is lowered to four interleaved depthwise convolutions
+    if w <= 4 and r.integers(0, 3):
+        kind, ac, hp, f = "resize_bilinear", False, True, 2  # tall and narrow: row and column strides of the four interleaved tiles differ widely
     X = g.T(x)
     oh, ow = (X.shape[1] * f, X.shape[2] * f) if not ac else ((X.shape[1] - 1) * f + 1, (X.shape[2] - 1) * f + 1)
     x = g.resize(x, kind, oh, ow, ac, hp)
